@@ -272,12 +272,16 @@ def _mpi_iter_unordered(
     Additionally, specify if the function expects the the positional arguments
     as a single tuple or unpacked.
     """
+    wrapped_func = ParallelJob(func, func_args, func_kwargs, unpack=unpack)
+
     if on_root():
         iterable = iter(iterable)
         yield from _mpi_root_task(iterable, ranks, comm=comm)
+        # without a worker rank (e.g. max_workers=1) no task has been dispatched
+        # yet, run the tasks sequentially on the root rank instead
+        yield from map(wrapped_func, iterable)
 
     else:
-        wrapped_func = ParallelJob(func, func_args, func_kwargs, unpack=unpack)
         _mpi_worker_task(wrapped_func, comm=comm)
 
     comm.Barrier()
